@@ -260,7 +260,7 @@ func (r *runner) check(part string, s []byte, counted bool, calls []CaseDesc) {
 			r.w.DivCase(cs, counted, detail, c.with(s))
 			continue
 		}
-		if part == "A" || part == "R" {
+		if part == "A" || part == "R" || part == "B0" {
 			r.w.DivFine(cs, fs, counted, detail, c.with(s))
 			continue
 		}
